@@ -398,10 +398,21 @@ func genNodeTrace(seed uint64, run int, o genOpts) *Trace {
 	if mode >= 2 {
 		budget = r.Range(300, 900)
 	}
+	fullCycle := r.Chance(1, 12)
+	if fullCycle {
+		// one node filled to all 256 bytes and drained to its last children again: what a
+		// counter that cannot hold 256 does on the way down only shows after a full node
+		mode, nH, budget = 2, 1, r.Range(540, 700)
+		tr.Gs = 1
+		hs = hs[:1]
+	}
 	if o.tier == "thorough" && r.Chance(1, 3) {
 		budget *= 2
 	}
 	target := r.Range(2, 256)
+	if fullCycle {
+		target = 256
+	}
 	growing := true
 	pickByte := func(h *st, wantPresent bool) (byte, bool) {
 		if wantPresent {
@@ -447,7 +458,7 @@ func genNodeTrace(seed uint64, run int, o genOpts) *Trace {
 		}
 		hi := r.Intn(nH)
 		h := hs[hi]
-		if h.dead || r.Intn(150) == 0 {
+		if h.dead || (r.Intn(150) == 0 && !fullCycle) {
 			tr.Steps = append(tr.Steps, Step{T: hi, Op: "nrel"})
 			hs[hi] = &st{}
 			continue
@@ -461,6 +472,8 @@ func genNodeTrace(seed uint64, run int, o genOpts) *Trace {
 				growing = false
 				if mode == 3 {
 					target = max(2, len(h.present)-r.Range(1, 6))
+				} else if fullCycle {
+					target = 2
 				} else {
 					target = r.Range(2, max(2, len(h.present)-1))
 				}
@@ -474,7 +487,7 @@ func genNodeTrace(seed uint64, run int, o genOpts) *Trace {
 				}
 			}
 			add = growing
-			if r.Chance(1, 8) {
+			if r.Chance(1, 8) && !fullCycle {
 				add = !add
 			}
 		}
